@@ -38,7 +38,8 @@ META = {
 
 
 def find_strict_check(ctx, eff):
-    enc = ctx.api("encoder")
+    from rules.shared import core_of
+    enc = core_of(ctx, "encoder", "smiles_to_mol")
     if "strict" not in enc.params:
         raise AnalysisError("encoder has no 'strict' parameter")
     on = set(eff.region(enc, {"strict": True}))
@@ -288,8 +289,10 @@ def run(ctx, rep):
     check_capacity_lookup(ctx, rep, eff, table_vars)
     rep.floor("Q1", 4)
     rep.floor("Q2", 4)
-    # Q3
-    reads = eff.module_var_reads(enc, {"strict": False})
+    # Q3 (from the public entry, so that wrappers are covered)
+    api_enc = ctx.api("encoder")
+    off = set(eff.region(api_enc, {"strict": False})) if "strict" in api_enc.params else off
+    reads = eff.module_var_reads(api_enc if "strict" in api_enc.params else enc, {"strict": False})
     bad = [(tv, reads[tv]) for tv in table_vars if tv in reads]
     plain, selfkeyed = memo_readers(ctx, eff, table_vars)
     memo_hit = [m.qual for m in plain + selfkeyed if m.qual in off]
